@@ -36,7 +36,10 @@ def i2c_alphabet(load, cmds=None, sdas=(0, 1), pokes=((0, 0, 0), (1, 0xa5, 0), (
 def jobs(tier):
     quick = tier == "quick"
     J = []
-    A = lambda mk, **kw: J.append(Job("A", mk, max_states=kw.pop("max_states", 60000 if quick else 2000000), **kw))
+    H = []                     # heavy jobs, started first so that the pool packs well
+
+    def A(mk, heavy=False, **kw):
+        (H if heavy else J).append(Job("A", mk, max_states=kw.pop("max_states", 60000 if quick else 2000000), **kw))
     B = lambda mk, **kw: J.append(Job("B", mk, cycles=kw.pop("cycles", 6000 if quick else 60000),
                                       runs=kw.pop("runs", 1 if quick else 3), **kw))
     # ---- (1) counters, mode A: 3-bit timers and watchdog over the complete letter set
@@ -51,25 +54,31 @@ def jobs(tier):
     # ---- (2)/(3) UART, mode A: bit periods 2..4 cycles, every start timing, four bytes
     for tw in TWS:
         for rx in (False, True):
-            A(lambda tw=tw, rx=rx: L.mk_accum(tw, rx))
+            A(lambda tw=tw, rx=rx: L.mk_accum(tw, rx), max_states=3000 if quick else 200000)
         A(lambda tw=tw: L.mk_uart_tx(tw))
-        A(lambda tw=tw: L.UartRxInst(tw), max_states=40000 if quick else 2000000)
-    # ---- (4) SPI, mode A
+        A(lambda tw=tw: L.UartRxInst(tw), heavy=True, max_states=(90000 if tw == 1 << 31 else 30000) if quick else 2000000)
+    # ---- (4) SPI, mode A: every start phase relative to the divider, overlapping start pulses, all lengths
     for dw in (2, 3, 4):
         for al in (False, True):
             for div in (2, 3, 4, 5):
-                if quick and (dw + div + al) % 2:
-                    continue
+                if dw == 2:
+                    cap = 3000000
+                elif quick:
+                    if (dw + div + al) % 2 or (dw == 4 and div > 3):
+                        continue
+                    cap = 2500
+                else:
+                    cap = 3000000
                 A(lambda dw=dw, al=al, div=div: L.SpiMasterInst(dw, al, spi_alphabet(dw, div), tag="/div%d" % div),
-                  max_states=30000 if quick else 3000000)
-    A(lambda: L.SpiMasterInst(2, False, spi_alphabet(2, 2, lengths=(0, 1, 2, 3), words=(1, 2), cs=((0, 0), (1, 0), (1, 1), (0, 1)),
-                                                     lbs=(0, 1)), tag="/div2/cs,loopback,length 0..3"),
-      max_states=30000 if quick else 3000000)
-    A(lambda: L.SpiSlaveInst(2, L.prod((0, 1), (0, 1), (0, 1), (1, 2), (0,))), max_states=30000 if quick else 1500000)
-    # ---- (5) I2C machine
-    A(lambda: L.I2cInst(2, 1, i2c_alphabet(1, sdas=(1,)), tag="/all commands"), max_states=30000 if quick else 3000000)
+                  heavy=dw > 2, max_states=cap)
+    A(lambda: L.SpiMasterInst(2, False, spi_alphabet(2, 2, lengths=(0, 1, 2, 3), words=(1,) if quick else (1, 2),
+                                                     cs=((0, 0), (1, 0), (1, 1)), lbs=(0, 1)),
+                              tag="/div2/cs,loopback,length 0..3"), heavy=True, max_states=800 if quick else 3000000)
+    A(lambda: L.SpiSlaveInst(2, L.prod((0, 1), (0, 1), (0, 1), (1, 2), (0,))), heavy=True, max_states=4000 if quick else 1500000)
+    # ---- (5) I2C machine: all command letters (incl. compound and overlapping ones), data pokes
+    A(lambda: L.I2cInst(2, 1, i2c_alphabet(1, sdas=(1,)), tag="/all commands"), heavy=True, max_states=30000 if quick else 3000000)
     A(lambda: L.I2cInst(2, 0, i2c_alphabet(0, cmds=[(0, 0, 0, 0), (0, 0, 1, 0), (0, 0, 0, 1), (0, 1, 0, 0), (1, 0, 0, 0)],
-                                           pokes=((0, 0, 0),)), tag="/sda free"), max_states=30000 if quick else 3000000)
+                                           pokes=((0, 0, 0),)), tag="/sda free"), heavy=True, max_states=5000 if quick else 3000000)
 
     # ---- mode B: realistic sizes
     B(lambda: L.mk_timer(32))
@@ -98,7 +107,7 @@ def jobs(tier):
     B(lambda: L.I2cInst(20, 3))
     B(lambda: L.I2cInst(20, 0))
     B(lambda: L.I2cInst(8, 11))
-    return J
+    return H + J
 
 
 def correspond(ctx):
